@@ -186,6 +186,16 @@ func init() {
 			m.overrides[name] = f
 			return nil
 		},
+		// OverrideIfPresent: like Override for a library function the current tree may not use at all (then there is nothing to model)
+		vrt + "OverrideIfPresent": func(m *Machine, a []Val) Val {
+			iv := a[1].(Iface)
+			f, ok := iv.V.(Func)
+			if !ok {
+				m.incon("Override: not a function")
+			}
+			m.overrides[a[0].(Str).C] = f
+			return nil
+		},
 		vrt + "ClearOverride": func(m *Machine, a []Val) Val { delete(m.overrides, a[0].(Str).C); return nil },
 		vrt + "AllowPanics":   func(m *Machine, a []Val) Val { m.allowPanics = a[0].(Bool).C; return nil },
 		vrt + "StepBudget": func(m *Machine, a []Val) Val {
@@ -337,6 +347,18 @@ func init() {
 		},
 		vrt + "Note": func(m *Machine, a []Val) Val { return nil },
 		vrt + "CheckAlloc": func(m *Machine, a []Val) Val { return nil },
+		vrt + "MaxAlloc": func(m *Machine, a []Val) Val {
+			r := CI(64, 0)
+			if m.maxAlloc != nil {
+				r = *m.maxAlloc
+			}
+			if len(a) > 0 {
+				if b, ok := a[0].(Bool); ok && b.IsC() && b.C {
+					m.maxAlloc = nil
+				}
+			}
+			return r
+		},
 		vrt + "LiveBytes": func(m *Machine, a []Val) Val { return m.liveBytes(nil) },
 		vrt + "LiveBytesExcluding": func(m *Machine, a []Val) Val {
 			var ex []Val
@@ -1076,6 +1098,14 @@ func init() {
 				m.incon("stringslite.IndexByte: symbolic byte")
 			}
 			return CI(64, uint64(int64(strings.IndexByte(concStr(m, a[0], "stringslite.IndexByte"), byte(c.C)))))
+		},
+		// zap is a no-op in the engine, but a logger still has a core one can ask for its level
+		"(*go.uber.org/zap.Logger).Core": func(m *Machine, a []Val) Val {
+			pkg := m.prog.ImportedPackage("go.uber.org/zap/zapcore")
+			if pkg == nil || pkg.Func("NewNopCore") == nil {
+				m.incon("zapcore not loaded")
+			}
+			return m.callFunction(pkg.Func("NewNopCore"), nil, nil)
 		},
 		"runtime.Gosched": func(m *Machine, a []Val) Val { return nil },
 		"os.Getenv":       func(m *Machine, a []Val) Val { return Str{} },
